@@ -5,15 +5,15 @@ import (
 	rt "github.com/apmckinlay/gsuneido/zzverifrt"
 )
 
-// C32 lexer: on every input of 0..3 arbitrary bytes (thorough 4) Next() reaches Eof within
+// C32 lexer: on every input of 0..2 arbitrary bytes (thorough 3) Next() reaches Eof within
 // len+1 tokens, never panics, token positions strictly increase and stay inside the input, and
 // each token's text span ends where the next one starts (spans tile the input).
 //
-//symgo:harness prop=C32 tier=quick shards=16 timeout=500 ttimeout=1700 bounds=all_inputs_of_0..3_bytes(thorough_4)
+//symgo:harness prop=C32 tier=quick shards=16 timeout=500 ttimeout=1700 bounds=all_inputs_of_0..2_bytes(thorough_3)
 func VerifC32Lex() {
-	maxn := 4
+	maxn := 3
 	if rt.Thorough() {
-		maxn = 5
+		maxn = 4
 	}
 	n := rt.Pick("len", maxn)
 	src := rt.Str("s", n)
